@@ -255,8 +255,27 @@ def run(ctx):
               "solve_pressure does not hand frame `when` its own result together with the same matrix' mapping_order")
 
 
+    ctx.clause("the matrices of frame t are built from frame t's own data")
+    for builder, store, ctor in (("build_force_matrix", "force_matrices", "new:forsys.fmatrix.ForceMatrix"),
+                                 ("build_pressure_matrix", "pressure_matrices", "new:forsys.pmatrix.PressureMatrix")):
+        fbuild = repo.func(f"{FS}.{builder}")
+        ctx.touch(fbuild)
+        sb_ = sym.summarize(repo, fbuild.qualname)
+        when = T.sym(fbuild.params[1]) if len(fbuild.params) > 1 else T.sym("when")
+        sts = [e for e in sb_.stores(store) if e.sub]
+        ok = len(sts) == 1 and sts[0].key == when and sts[0].value[0] == "call" and sts[0].value[1] == ctor and sts[0].value[2] \
+            and sts[0].value[2][0] == T.idx(T.attr(SELF, "frames"), when) and not sts[0].conds()
+        kw = dict(sts[0].value[3]) if sts else {}
+        ok_ts = kw.get("timeseries") == T.attr(SELF, "mesh") or (sts and len(sts[0].value[2]) > 1 and T.attr(SELF, "mesh") in sts[0].value[2])
+        ctx.check(ok and ok_ts, "ALIGN", f"{fbuild.qualname} / ALIGN / {store}[when] = matrix of frames[when] (timeseries = self.mesh)", ctx.where(fbuild),
+                  "key, frame and time series all belong to the requested frame",
+                  f"{store} entry is {T.show(T.alpha(sts[0].key)) if sts else '?'} <- {T.show(T.alpha(sts[0].value))[:160] if sts else '?'}: not built from the requested frame's own data")
+
+
 _P, _S, _F, _G = "forsys/fmatrix.py", "forsys/forsys.py", "forsys/frames.py", "forsys/general_matrix.py"
 PINNED = [
+    ("pressure matrix always built from frame 0", _S, "self.pressure_matrices[when] = pmatrix.PressureMatrix(self.frames[when],", "self.pressure_matrices[when] = pmatrix.PressureMatrix(self.frames[0],"),
+    ("force matrix stored under the previous key", _S, "self.force_matrices[when] = fmatrix.ForceMatrix(self.frames[when],", "self.force_matrices[max(when - 1, 0)] = fmatrix.ForceMatrix(self.frames[when],"),
     ("F2 reintroduced: pressures rebound", _S, "self.pressures[when] = self.pressure_matrices[when].solve_system(**kwargs)\n        self.frames[when].assign_pressures(self.pressures[when],",
      "self.pressures = self.pressure_matrices[when].solve_system(**kwargs)\n        self.frames[when].assign_pressures(self.pressures,"),
     ("F8a reintroduced: fix_one_stress rebinds self.matrix", _P, "            matrix = np.delete(self.matrix, max_index, 1)", "            self.matrix = matrix = np.delete(self.matrix, max_index, 1)"),
